@@ -68,6 +68,19 @@ Theorem C07_tree_recursion_unbounded_witness :
 Proof. exact tree_recursion_unbounded_witness. Qed.
 Print Assumptions C07_tree_recursion_unbounded_witness.
 
+(* What the candidate repair (an exit-code check on function entry, notes/c07-function-entry-check.patch) buys: in a
+   graph accepted by the checker in which every callee of a call edge is a check node, the bound is linear in the ceiling. *)
+Theorem C07_entry_checks_linear_bound :
+  forall (G : graph) (ceiling : nat) (l : list cfg),
+  all_cycles_checked G = true ->
+  (forall n c r, In (ECall c r) (edges G n) -> is_check G c = true) ->
+  is_path G l ->
+  (forall c, In c l -> length (snd c) <= ceiling) ->
+  (length G + 2) * (ceiling + 1) < length l ->
+  exists c, In c l /\ is_check G (fst c) = true.
+Proof. exact entry_checks_linear. Qed.
+Print Assumptions C07_entry_checks_linear_bound.
+
 (* The closed word (ModuleInstance.Closed): whatever sequence of causes hits a module - cancellation or deadline seen by
    the watcher goroutine or at call entry, CloseWithExitCode(code) from any goroutine - the first one wins the
    compare-and-swap, FailIfClosed reports its code (ExitCodeContextCanceled, ExitCodeDeadlineExceeded, resp. code)
